@@ -49,6 +49,12 @@ pub(super) struct Operation {
     obj: Ref,
     action: Action,
     location: Location,
+
+    /// The operation waits until the object is available (`lock`, `read`,
+    /// `write`, ...), as opposed to an attempt that fails when it is not
+    /// (`try_lock`, ...). Only a waiting thread is blocked when another thread
+    /// takes the object first.
+    blocking: bool,
 }
 
 // TODO: move to separate file
@@ -334,7 +340,7 @@ impl<T: Object<Entry = Entry>> Ref<T> {
         super::branch(|execution| {
             trace!(obj = ?self, ?is_locked, "Object::branch_acquire");
 
-            self.set_action(execution, Action::Opaque, location);
+            self.set_action(execution, Action::Opaque, location, true);
 
             if is_locked {
                 // The mutex is currently blocked, cannot make progress
@@ -351,7 +357,7 @@ impl<T: Object<Entry = Entry>> Ref<T> {
         super::branch(|execution| {
             trace!(obj = ?self, ?action, "Object::branch_action");
 
-            self.set_action(execution, action.into(), location);
+            self.set_action(execution, action.into(), location, false);
         })
     }
 
@@ -364,7 +370,7 @@ impl<T: Object<Entry = Entry>> Ref<T> {
         super::branch(|execution| {
             trace!(obj = ?self, ?action, ?disable, "Object::branch_disable");
 
-            self.set_action(execution, action.into(), location);
+            self.set_action(execution, action.into(), location, true);
 
             if disable {
                 // Cannot make progress.
@@ -377,7 +383,13 @@ impl<T: Object<Entry = Entry>> Ref<T> {
         self.branch_action(Action::Opaque, location)
     }
 
-    fn set_action(self, execution: &mut Execution, action: Action, location: Location) {
+    fn set_action(
+        self,
+        execution: &mut Execution,
+        action: Action,
+        location: Location,
+        blocking: bool,
+    ) {
         assert!(
             T::get_ref(&execution.objects.entries[self.index]).is_some(),
             "failed to get object for ref {:?}",
@@ -388,6 +400,7 @@ impl<T: Object<Entry = Entry>> Ref<T> {
             obj: self.erase(),
             action,
             location,
+            blocking,
         });
     }
 }
@@ -399,6 +412,10 @@ impl Operation {
 
     pub(super) fn action(&self) -> Action {
         self.action
+    }
+
+    pub(super) fn is_blocking(&self) -> bool {
+        self.blocking
     }
 
     pub(super) fn location(&self) -> Location {
